@@ -22,8 +22,8 @@ from checklib import snapproto as sp
 LEVEL = "model_checking"
 CWD = os.path.join(core.SPEC, "snapsync")
 
-QUICK_EXPORTS = ["Exp_q_basic.cfg", "Exp_q_deep.cfg", "Exp_q_uuid.cfg", "Exp_q_swap.cfg", "Exp_clash.cfg"]
-THOROUGH_EXPORTS = ["Exp_t_basic.cfg", "Exp_t_uuid.cfg", "Exp_t_acks.cfg", "Exp_q_deep.cfg", "Exp_q_swap.cfg", "Exp_clash.cfg"]
+QUICK_EXPORTS = ["Exp_q_basic.cfg", "Exp_q_deep.cfg", "Exp_q_uuid.cfg", "Exp_q_swap.cfg", "Exp_q_acks.cfg", "Exp_clash.cfg"]
+THOROUGH_EXPORTS = ["Exp_t_basic.cfg", "Exp_t_uuid.cfg", "Exp_t_acks.cfg", "Exp_q_deep.cfg", "Exp_q_swap.cfg", "Exp_q_acks.cfg", "Exp_clash.cfg"]
 THOROUGH_MC = ["MC_t_big.cfg", "MC_t_uuid.cfg"]
 
 
@@ -219,7 +219,7 @@ def run(ctx):
 
     # ---- 2. direction A
     cfgs = THOROUGH_EXPORTS if thorough else QUICK_EXPORTS
-    exports = sp.run_exports("MCS.tla", cfgs, CWD, [sp.exe(bins), "sync-replay"], parallel=6 if thorough else 5,
+    exports = sp.run_exports("MCS.tla", cfgs, CWD, [sp.exe(bins), "sync-replay"], parallel=7 if thorough else 6,
                              timeout=2400 if thorough else 900, env=env)
     schedules = []
     sigs = set()
